@@ -6,7 +6,7 @@
 From Coq Require Import ZArith List Bool Permutation.
 From Coq Require PrimFloat.
 From Centro Require Import Base.Sx Base.PropFloat Model.PropHeap Model.Propagate Spec.PropSpec Spec.PropCheck
-     Proofs.PropPotential Proofs.PropGrid Proofs.PropKey Proofs.PropHeapInv Proofs.PropHeapKey Proofs.PropDijkstra.
+     Proofs.PropPotential Proofs.PropGrid Proofs.PropKey Proofs.PropHeapInv Proofs.PropHeapKey Proofs.PropDijkstra Proofs.PropFuel.
 Import ListNotations.
 Open Scope Z_scope.
 
@@ -139,8 +139,8 @@ Print Assumptions C03_key_strict_refuted.
 (* dijkstra_sound: for every input (non-negative labels), both key layouts, and whatever order the
    heap delivers rows in, every distance the model reports is -1 (untouched), 0 at a seed, or the
    cost (folded as the code folds it: step + accumulated, binary64) of a real 8-connected mask
-   path from a masked seed.  [propagate .. = Some] excludes only the out-of-fuel result, which the
-   correspondence would report as a mismatch (fuel sufficiency is not proved). *)
+   path from a masked seed.  [propagate .. = Some] excludes only the out-of-fuel result, which
+   C03_fuel_sufficient below shows never occurs. *)
 Theorem C03_dijkstra_sound : forall key image labels mask m n weight lo d,
   shape labels m n -> (forall v, inr m n v -> 0 <= labv labels v) ->
   propagate key image labels mask m n weight = Some (lo, d) ->
@@ -149,6 +149,14 @@ Theorem C03_dijkstra_sound : forall key image labels mask m n weight lo d,
     x = neg_one \/ (x = PrimFloat.zero /\ 0 < labv labels v) \/ reach image mask m n weight labels v x.
 Proof. exact dijkstra_sound. Qed.
 Print Assumptions C03_dijkstra_sound.
+
+(* the fuel of the model's loop always suffices: the out-of-fuel result never occurs, so
+   C03_dijkstra_sound applies to every well-shaped input *)
+Theorem C03_fuel_sufficient : forall key image labels mask m n weight,
+  shape labels m n -> 0 <= m -> 0 <= n ->
+  exists lo d, propagate key image labels mask m n weight = Some (lo, d).
+Proof. exact fuel_sufficient. Qed.
+Print Assumptions C03_fuel_sufficient.
 
 (* --- optimality of the code as written: refuted by the faithful model (finding F7) ----------- *)
 (* dijkstra_optimal: "for every input the Dropped-key model's output passes prop_check" is FALSE;
